@@ -8,7 +8,7 @@ cp $WT/demo.py /verif/seeded/$id/demo_$prop.py
 python3 - "$@" <<'PY'
 import json, sys
 wt, sid, prop, breaks, needs, ran, det = sys.argv[1:8]
-json.dump(dict(property=prop, breaks=breaks, needs=needs, ran=ran.split(' | '), detected_by=det, source='independent sub-agent, property text only (round 3)'),
+json.dump(dict(property=prop, breaks=breaks, needs=needs, ran=ran.split(' | '), detected_by=det, source='independent sub-agent, property text only (round ' + __import__('os').environ.get('ROUND', '9') + ')'),
           open('/verif/seeded/%s/meta.json' % sid, 'w'), indent=1)
 PY
 ls /verif/seeded/$id
